@@ -14,7 +14,7 @@ pub fn prop() -> Prop {
     Prop {
         id: "C07",
         level: "model_checking",
-        rule: "(a) the full table of < <= > >= = != over a 103-text universe (incl. non-integral numbers one unit in the last place apart) (with -0, -0.0 next to 0, 0.0, and objects that differ only in member order, for which only the order axioms are required) of all types (equal-by-value spellings, numbers |n|<2^53 or non-integral) through the real functions, then totality, antisymmetry w.r.t. =, transitivity over all triples, congruence of =, agreement with the documented order; (b) --sort-by on all streams of <=5 (thorough <=7) rows {k,v,id} over the keys {\"b\",\"a\",2,null,absent} x 24 key/direction configurations (three repeat a selection with another direction; four use keys that are calls whose option texts share their first word or differ in one blank) (1..3 keys; omitted/ASC/DESC/asc/Desc; `=` and blank separators), all streams of <=4 (thorough <=5) rows over 16 keys of all types (0 and -0 among them) in both directions, and long streams with >11 distinct keys and >8 rows per key; (c) sort, sort_unique, sort_by, sort_by_keys, sort_by_values, sort_by_values_by on all lists/objects of <=5 (thorough <=6) elements over an 8-value universe, and on lists/objects of 20..100 elements with distinguishable ties; non-trivial = the input holds a tie between distinguishable rows, an absent key or two types; distinct by construction",
+        rule: "(a) the full table of < <= > >= = != over a 103-text universe (incl. non-integral numbers one unit in the last place apart) (with -0, -0.0 next to 0, 0.0, and objects that differ only in member order, for which only the order axioms are required) of all types (equal-by-value spellings, numbers |n|<2^53 or non-integral) through the real functions, then totality, antisymmetry w.r.t. =, transitivity over all triples, congruence of =, agreement with the documented order; (b) --sort-by on all streams of <=5 (thorough <=7) rows {k,v,id} over the keys {\"b\",\"a\",2,null,absent} x 31 key/direction configurations (three keys in all eight patterns of directions; three repeat a selection with another direction; four use keys that are calls whose option texts share their first word or differ in one blank) (1..3 keys; omitted/ASC/DESC/asc/Desc; `=` and blank separators), all streams of <=4 (thorough <=5) rows over 16 keys of all types (0 and -0 among them) in both directions, and long streams with >11 distinct keys and >8 rows per key; (c) sort, sort_unique, sort_by, sort_by_keys, sort_by_values, sort_by_values_by on all lists/objects of <=5 (thorough <=6) elements over an 8-value universe, and on lists/objects of 20..100 elements with distinguishable ties; non-trivial = the input holds a tie between distinguishable rows, an absent key or two types; distinct by construction",
         explanation: "rows carry ids, so permutation, stability and multi-key order are observable; the output is compared with the reference pipeline (stable lexicographic insertion sort under the documented order) and, independently, checked to be a permutation of the sortable rows in which tied neighbours keep arrival order",
         assumptions: COMMON_ASSUMPTIONS.to_vec(),
         guards: vec!["sort-keys-that-read-enclosing-inputs", "member-names-beyond-ascii-letters", "command-line-respelled", "tie-between-distinguishable-rows", "absent-key-dropped", "mixed-types", "three-keys", "desc", "more-than-11-distinct-keys", "more-than-8-rows-per-key", "order-table-complete", "function-sorts-with-ties"],
@@ -175,6 +175,15 @@ fn sort_cfgs() -> Vec<SortCfg> {
         c("get-v,get-kD", vec![("(get . \"v\")", false, ""), ("(get . \"k\")", true, "=DESC")]),
         c("vD,v+0", vec![(".v", true, "=DESC"), ("(+ .v 0)", false, "")]),
         c("len-k,k", vec![("(len  .k)", false, ""), (".k", false, ""), ("(len .k)", true, "=DESC")]),
+        // three keys in every pattern of directions (v ties often, k sometimes, id never): which key counts more shows
+        // only when neighbours differ in direction
+        c("v,k,id", vec![(".v", false, ""), (".k", false, ""), (".id", false, "")]),
+        c("v,kD,id", vec![(".v", false, ""), (".k", true, "=DESC"), (".id", false, "")]),
+        c("v,kD,idD", vec![(".v", false, ""), (".k", true, "=DESC"), (".id", true, "=DESC")]),
+        c("vD,k,id", vec![(".v", true, "=DESC"), (".k", false, ""), (".id", false, "")]),
+        c("vD,k,idD", vec![(".v", true, "=DESC"), (".k", false, ""), (".id", true, "=DESC")]),
+        c("vD,kD,id", vec![(".v", true, "=DESC"), (".k", true, "=DESC"), (".id", false, "")]),
+        c("vD,kD,idD", vec![(".v", true, "=DESC"), (".k", true, "=DESC"), (".id", true, "=DESC")]),
     ]
 }
 
@@ -335,7 +344,7 @@ fn run(ctx: &mut Ctx) {
                 return;
             }
         }
-        ctx.level_done(&format!("b:all-streams-of-{len}-rows-x-24-key-configurations"));
+        ctx.level_done(&format!("b:all-streams-of-{len}-rows-x-{}-key-configurations", cfgs.len()));
     }
     let keys14: Vec<Option<V>> =
         ["null", "false", "true", "\"a\"", "\"B\"", "\"é\"", "-1", "1.5", "2", "{}", "[1]", "[1,0]", "[]", "0", "-0"].iter().map(|t| Some(json::parse_str(t))).chain(std::iter::once(None)).collect();
